@@ -182,8 +182,19 @@ def r2_ref_minting(ctx):
         for _b, _i, s2 in shl:
             sh_fields |= {f for _o, f in fl.slice_reads(s2["p"]["l"])[0]}
         ok = ok and "worker_id" in sh_fields and "next_ref" not in sh_fields
-        # the read used for the id precedes the increment
-        ok = ok and all(cr.dominates(bi, ib) for ib in incs)
+        # the read of next_ref that feeds the id precedes the increment's write (the id itself may be assembled later)
+        back = fl.backward({s["p"]["l"]})
+        reads = []
+        for b3, s3, st3 in cr.stmts():
+            if st3["k"] == "assign" and st3["p"]["l"] in back and not st3["p"]["pr"]:
+                rp = op_place(st3["rv"].get("op") or {}) if st3["rv"]["k"] == "use" else (st3["rv"].get("p") if st3["rv"]["k"] in ("ref",) else None)
+                ops_ = [rp] if rp else [op_place(st3["rv"].get(k_) or {}) for k_ in ("l", "r")]
+                if any(o_ and any(e[0] == "f" and e[1] == "next_ref" for e in o_["pr"]) for o_ in ops_):
+                    reads.append((b3, s3))
+        writes = [(b3, s3) for b3, s3, st3 in cr.stmts() if st3["k"] == "assign" and [e for e in st3["p"]["pr"] if e[0] == "f"] and
+                  [e for e in st3["p"]["pr"] if e[0] == "f"][-1][1] == "next_ref"]
+        ok = ok and bool(reads) and bool(writes) and all((rb != wb and cr.dominates(rb, wb) and not cr.reaches(wb, rb)) or (rb == wb and rs < ws)
+                                                         for rb, rs in reads for wb, ws in writes)
     ctx.check(ok, R, cr.key + "|formula", "ref = (worker_id << 48) | next_ref, read before the increment",
               "the ref id is no longer (worker_id << 48) | next_ref", cr.loc(0))
     callers = sorted({k for k, _ in F.callers_of(cr.key)})
